@@ -54,6 +54,12 @@ CHECKS = {
         text="PROVED for all inputs: param2json_schema_property appends the name to `required` exactly when the type string does not start with 'Optional[', leaves `required` otherwise untouched (frame), turns a truthy doc into the description and never leaves a `typ` key. "
              "BOUNDED only: the whole-document clauses (required list of json_schema() in order, meta-schema validity, defaults validate against their property schema, Literal pattern accepts exactly the members, serialisable, parse-back equality) over the JSON-representable slice of IR(n).",
         note="The quantified lemma for json_schema()'s loop over params (required == filter in order) is not proved, only checked in the bounded part. jsonschema's Draft202012Validator is the oracle for validity."),
+    "C16": dict(
+        category="other", design_ref="DESIGN.md §5 C16",
+        technique="contract-based deductive verification of the OpenAPI emitter core (E1 with a symbolic-key map / JSON-tree view, z3 strings): closure of $refs, verbs vs CRUD, declared path parameter, write frame; whole-document oracle over generated models for the bulk pipeline",
+        text="PROVED for all names, routes, keys and CRUD strings: every $ref written by components_paths_from_name_model_route_id_crud resolves to a component written on the same path or to ServerError (which emit.openapi defines first: rule-engine side condition), the request body is defined iff 'C' is requested, POST/GET/DELETE appear exactly under their letters and on the right route, the item route exists when only CRUD letters are given and declares its path parameter, and nothing else is written. "
+             "BOUNDED only: openapi_bulk, gen_routes/upsert_routes and the bottle route parser, JSON serialisability, 'routes fed back describe the same model'. One known finding (multi-word model names).",
+        note="Assumed: the model's JSON-schema carries no $ref; frozenset(a)-frozenset(b) modelled by an uninterpreted subset predicate; induction over the list of models in emit.openapi is argued from the frame + closure lemma (DESIGN §5 C16), with its side condition checked syntactically."),
 }
 
 NA_REASON = "check not built yet (work in progress; see DESIGN.md for the plan)"
